@@ -872,6 +872,11 @@ class Exec(Sem):
                 for a_, h, t_ in zip(lam.args.args, hn, tys_):
                     env2[a_.arg] = self.coerce(loc[h], t_, "witness")
                 return k(st, SV(self.spec_bool(lam.body, st.copy(env=env2)), T.BOOL))
+            missing = [h for h in hn if h not in loc]
+            if missing:
+                # the contract names a local of the function as witness and the function has no such local any
+                # more (e.g. it was renamed): the contract is out of date - an engine error, never a verdict
+                raise Unsupported("contract out of date: witness local %s not found in the function" % ", ".join(missing), e)
         from .spec import parse_type
         names = [a.arg for a in lam.args.args]
         tys = [parse_type(ast.unparse(t)) if not isinstance(t, ast.Constant) else parse_type(t.value)
@@ -1125,6 +1130,7 @@ class Exec(Sem):
         if c is not None and c.asserts and not st.spec and st.fn is not None and not isinstance(s0, (ast.If, ast.For, ast.While, ast.Try)):
             key = " ".join(ast.unparse(s0).split())
             if key in c.asserts and self.repo.func(c.target.split("#")[0]) is st.fn:
+                self.cx.__dict__.setdefault("assert_hits", set()).add(key)
                 for name, e in c.asserts[key]:
                     ps = st.copy(spec=True, old=self.pre_state)
                     g = self.spec_bool(e, ps)
